@@ -80,7 +80,7 @@ func (d *Driver) Emit(scn Scenario, events []ctl.Event, sched any, extra map[str
 		keep = 1
 	}
 	runID := d.Shard*100000 + d.RunNo
-	reset := ctl.Event{"ev": "Reset", "run": runID, "mem": scn.Opts.Path == "", "keep": keep, "scn": scn.Name}
+	reset := ctl.Event{"ev": "Reset", "run": runID, "mem": scn.Opts.Path == "", "keep": keep, "scn": scn.Name, "free": scn.Free}
 	evs := append([]ctl.Event{reset}, events...)
 	path := fmt.Sprintf("%s/trace-keep%d-s%d.ndjson", d.Out, keep, d.Shard)
 	if err := ctl.WriteTrace(path, evs); err != nil {
@@ -574,6 +574,25 @@ func (d *Driver) RunFamily(fam string, runs int) {
 			}
 			scn.Opts.Unsafe = r.Intn(3) > 0
 			d.simple(scn, NewPrioSched(r.Int63(), 5, 100), nil)
+		}
+	case "free":
+		// real parallelism: no gates; reader observations are tied to no particular
+		// point of the order, so only writers, the persister / merger and Close are exercised
+		for i := 0; i < runs; i++ {
+			scn := d.mergeScenario()
+			scn.Name = "free"
+			scn.Free, scn.RootObs, scn.Readers, scn.Second, scn.MergeWindow = true, false, 0, false, 0
+			scn.Opts.Path = "FS"
+			nc := 2 + r.Intn(5)
+			scn.Clients = nil
+			for c := 0; c < nc; c++ {
+				var bs []BatchSpec
+				for b := 0; b < 1+r.Intn(3); b++ {
+					bs = append(bs, BatchSpec{Ops: randomOps(r, allIds, true), CB: r.Intn(3) == 0})
+				}
+				scn.Clients = append(scn.Clients, bs)
+			}
+			d.simple(scn, NewPrioSched(r.Int63(), 1, 10), nil)
 		}
 	case "replay":
 		var m struct {
